@@ -145,6 +145,40 @@ CLAIMED["C08"] = (
     "DESIGN.md §4 C08",
 )
 
+CLAIMED["C03"] = (
+    "PARTIAL. Proved: (a) dispatch totality — every node class the installed mypy can hand to a visitor has an overload in refurb's "
+    "accept (tables regenerated at run time; this is the theorem that failed on TypeAliasStmt before the repair); (b) the exception-"
+    "handler automaton of main()/run_refurb() for ANY handler table and any fault pattern: a run ends in a clean verdict iff no stage "
+    "raises an exception the table leaves uncaught (clean_verdict_partial, clean_verdict_iff_total), with today's table regenerated by "
+    "fault injection (96 stage x exception cells, each observed by making the stage function raise) and the documented handlers checked "
+    "on it; the full statement is refuted for today's table (clean_verdict_refuted_today). NOT proved: that no check body raises on any "
+    "tree — that part is a crash SEARCH (labelled as such): refurb's sources, stdlib sample, all-node-kinds corpus, AST mutants of the "
+    "idiom files, typing states, encodings/layouts, deep nesting, degenerate command lines, with the clean-verdict oracle.",
+    COMMON_NOTE
+    + "The node classes mypy can produce are read off mypy/visitor.py (source scan). The stage functions patched by the injection are "
+    "taken to be the stages of a run. Absence of exceptions inside ~5k lines of check code over mypy's object model is searched, not "
+    "proved; mypy's own crashes (one recorded finding) are outside refurb's handlers.",
+    "Lean 4 proof (decide over regenerated dispatch tables; induction over the stage automaton; handler table by fault injection) + crash search",
+    "DESIGN.md §4 C03",
+)
+CLAIMED["C18"] = (
+    "Machine-checked, for fault sequences of any length, exactly when run_refurb leaves mypy's timing temp file behind (leak_iff): "
+    "never without --timing-stats, never once the unlink sits in a finally (today's repaired code, shape read from main.py on every "
+    "run); for the 2.0.0 shape it leaks iff a step between mkstemp() and unlink() fails (refuted with the CompileError witness, proved "
+    "under the success guard). The --timing-stats file has the three keys in order, str->int sections with one entry per checked "
+    "module and per mypy line, no duplicate keys, values non-increasing with ties in insertion order, one line of printable ASCII "
+    "(stats_shape and friends, unbounded inputs). The CLI oracle snapshots (names, modes, sizes, mtime_ns, SHA-256, symlink targets) "
+    "the working directory, the checked tree and a private TMPDIR around 56 (quick) / 136 (thorough) runs and allows only "
+    ".mypy_cache/** and FILE to differ.",
+    COMMON_NOTE
+    + "Trusted: extract_c18.py (ast reading of where the unlink sits), the instrumentation seams of the lifecycle worker, the "
+    "os.walk/sha256 snapshots. Modelled, not verified: mypy's writes below .mypy_cache are only observed; that mypy-written lines "
+    "always parse and that the text round-trips through json.loads are checked by correspondence; no_source_write is a statement "
+    "about the model's event alphabet and gets its force from the snapshots.",
+    "Lean 4 proof (event automaton with closed-form final state; insertion-sort and dict-insert lemmas) + in-process/instrumented correspondence + file-system snapshot oracle",
+    "DESIGN.md §4 C18",
+)
+
 NOT_YET = "check not built yet in this round (work in progress; see DESIGN.md §8 order of work)"
 
 
